@@ -22,11 +22,11 @@ TAGS = {
 
 DESIGN = {
     # property: (quick configs, thorough configs, mutant self-tests [cfg, expected tag])
-    "C01": (["Loop_quick.cfg"], ["Loop_small.cfg", "Loop_faults.cfg"], [("Loop_mut_forward_noidle.cfg", "C01")]),
+    "C01": (["Loop_quick.cfg"], ["Loop_small.cfg", "Loop_faults.cfg", "Loop_live2.cfg"], [("Loop_mut_forward_noidle.cfg", "C01")]),
     "C04": (["Loop_quick.cfg", "Loop_ideal.cfg"], ["Loop_small.cfg", "Loop_ideal.cfg", "Loop_faults.cfg"],
             [("Loop_mut_firstonly.cfg", "C04"), ("Loop_mut_strict.cfg", "C04")]),
-    "C05": (["Loop_quick.cfg"], ["Loop_small.cfg", "Loop_faults.cfg"], [("Loop_mut_skip_noidle.cfg", "C05"), ("Loop_mut_no_reidle.cfg", "C01")]),
-    "C08": (["Loop_faults_quick.cfg", "Loop_quick.cfg"], ["Loop_faults.cfg", "Loop_small.cfg"], [("Loop_mut_exit_without_answer.cfg", "C08")]),
+    "C05": (["Loop_quick.cfg", "Loop_live.cfg"], ["Loop_small.cfg", "Loop_faults.cfg", "Loop_live.cfg", "Loop_live2.cfg"], [("Loop_mut_skip_noidle.cfg", "C05"), ("Loop_mut_no_reidle.cfg", "C01")]),
+    "C08": (["Loop_faults_quick.cfg", "Loop_quick.cfg", "Loop_live_faults.cfg"], ["Loop_faults.cfg", "Loop_small.cfg", "Loop_live_faults.cfg"], [("Loop_mut_exit_without_answer.cfg", "C08")]),
     "C17": (["AlbumArt.cfg"], ["AlbumArt.cfg", "AlbumArt_big.cfg"], []),
     "C18": (["Handshake.cfg"], ["Handshake.cfg"], []),
 }
